@@ -30,7 +30,7 @@ CLAIMED["C20"] = (
     "from the reset to a return replaces/clears the environment or re-arms the flag, every NotifierImpl access is "
     "through its MutexGuard, both request entry points set the flag on all live paths.  These are the code-shape "
     "facts the no-lost-request interleaving argument rests on; schedules are not explored (that would be a "
-    "different technique), so the claim is the structural clause, for all paths. The functions that reset the flag are found by their `should_reload = false` write, not by name. Later additions: (A6) should_reload() is polled only after cached_env.lock().",
+    "different technique), so the claim is the structural clause, for all paths. The functions that reset the flag are found by their `should_reload = false` write, not by name. Later additions: (A6) should_reload() is polled only after cached_env.lock(). (A7) the result of locking the cached environment is unwrapped, never recovered from a PoisonError.",
     "DESIGN.md §3 C20",
     "The interleaving argument over the checked facts is on paper; callbacks supplied by the host are assumed not to "
     "touch the flag.")
@@ -211,7 +211,7 @@ CLAIMED["C18"] = (
     "evaluates a field before assigning another the tracker must not assign first, and a variable is reported "
     "exactly when it is not assigned.  This decides soundness of the tracker's traversal against the engine's own "
     "evaluation order for all templates; lookups performed by host "
-    "objects and by the debug feature around a failing instruction are not decided. Also: every public entry point returns, unfiltered, what find_undeclared computed on every path except the parse-error exit. Later additions: (W5) implicit names: pre-assigned constants must be names the interpreter binds (loop, caller), assigned inside the construct's own scope, loop only after the loop filter was visited, a macro's name only after the macro was visited, and a name the interpreter stores only `if let Some` is Some on every producer path (traced across functions) except under the construct's does-not-mention flag; (W1b) what the code generator evaluates inside an assignment target is visited by the tracker's target walker itself. (W2b) for (target, value) collections the engine evaluates all values before binding any target only if the tracker does not interleave.",
+    "objects and by the debug feature around a failing instruction are not decided. Also: every public entry point returns, unfiltered, what find_undeclared computed on every path except the parse-error exit. Later additions: (W5) implicit names: pre-assigned constants must be names the interpreter binds (loop, caller), assigned inside the construct's own scope, loop only after the loop filter was visited, a macro's name only after the macro was visited, and a name the interpreter stores only `if let Some` is Some on every producer path (traced across functions) except under the construct's does-not-mention flag; (W1b) what the code generator evaluates inside an assignment target is visited by the tracker's target walker itself. (W2b) for (target, value) collections the engine evaluates all values before binding any target only if the tracker does not interleave. (W7) every name the tracker found free in a macro body gets an Enclose instruction on every path.",
     "DESIGN.md §3 C18",
     "One known finding (macro argument defaults) is listed; its repair would change macro closure capture.")
 
